@@ -17,7 +17,7 @@ FUNCTIONS = [("pandapower.toolbox.grid_modification", "replace_line_by_impedance
 STUBS = ["builtin complex(r, x) in merge_parallel_line -> symbolic complex", "the create_* call made by the replace function is captured with its (symbolic) arguments and fed to the same ppc builders as the original "
          "element; table edits (drop, group membership, result table adaption, profiles) are stubbed out (structural)"]
 ASSUMPTIONS = ["line/impedance/ward parameters symbolic; the documented result-preserving mode only_valid_replace=True (lines without c and g)"]
-OUTSIDE = ["re-indexing, merge_nets, select_subnet, drop_inactive_elements, fuse_buses (structural)", "only_valid_replace=False (documented as not neutral)",
+OUTSIDE = ["re-indexing, merge_nets, select_subnet, fuse_buses (structural)", "drop_inactive_elements beyond 'removes rows only, keeps what is supplied' on one 6-bus net", "only_valid_replace=False (documented as not neutral)",
            "va_degree of an ext_grid replaced by a slack gen (a gen has no angle setpoint)"]
 BOUNDS = {"quick": "one element per instance: line->impedance, impedance->line, ward->load+shunt, xward->load+shunt+impedance+gen, merge_parallel_line, ext_grid->gen, gen->ext_grid", "thorough": "same"}
 _cache = {}
@@ -346,12 +346,110 @@ def make_xward():
     return fn
 
 
+DROP_FLAGS = ["trafo0_in_service", "trafo1_in_service", "switch_at_line0_closed", "line2_in_service", "bus5_in_service", "load2_in_service", "line4_in_service"]
+
+
+def _drop_net():
+    if "drop" not in _cache:
+        net = pp.create_empty_network()
+        b = [pp.create_bus(net, v) for v in (110., 20., 20., 20., 20., 20.)]
+        pp.create_ext_grid(net, b[0])
+        for _ in range(2):
+            pp.create_transformer_from_parameters(net, b[0], b[1], 40, 110, 20, 0.3, 12, 20, 0.05)
+        for f, t in ((1, 2), (2, 3), (3, 4), (4, 1), (4, 5)):
+            pp.create_line_from_parameters(net, b[f], b[t], 2., 0.1, 0.3, 10., 1.)
+        pp.create_switch(net, b[2], 0, "l", closed=False)
+        pp.create_switch(net, b[1], 1, "t", closed=True)
+        pp.create_load(net, b[2], 1., 0.3)
+        pp.create_load(net, b[3], 2., 0.5)
+        pp.create_load(net, b[5], 0.5, 0.1)
+        _cache["drop"] = net
+    return _cache["drop"]
+
+
+def make_drop_inactive(nflags):
+    """drop_inactive_elements on a net whose in-service flags and switch states are symbolic booleans (the harness forks on them, cf. C26):
+    the function may only remove rows - every row that survives is exactly the row the user had (incl. switch states), and everything
+    that is in service and supplied survives"""
+    def fn(ctx):
+        gm = ctx.load("pandapower.toolbox.grid_modification")
+        net = copy.deepcopy(_drop_net())
+        F = {nm: ((ctx.var(nm, 0., 1.) >= 0.5) if k < nflags else True) for k, nm in enumerate(DROP_FLAGS)}
+        D = {nm: bool(v) for nm, v in F.items()}
+        net.trafo.loc[0, "in_service"] = D["trafo0_in_service"]
+        net.trafo.loc[1, "in_service"] = D["trafo1_in_service"]
+        net.switch.loc[0, "closed"] = D["switch_at_line0_closed"]
+        net.line.loc[2, "in_service"] = D["line2_in_service"]
+        net.line.loc[4, "in_service"] = D["line4_in_service"]
+        net.bus.loc[5, "in_service"] = D["bus5_in_service"]
+        net.load.loc[2, "in_service"] = D["load2_in_service"]
+        before = {t: net[t].copy() for t in ("bus", "line", "trafo", "switch", "load", "ext_grid")}
+        gm.drop_inactive_elements(net)
+        for t, df0 in before.items():
+            ok_subset = set(net[t].index) <= set(df0.index)
+            ctx.true(f"no_rows_invented/{t}", ok_subset)
+            same = True
+            for i in net[t].index:
+                if i not in df0.index:
+                    continue
+                for c in df0.columns:
+                    a, b_ = net[t].at[i, c], df0.at[i, c]
+                    if c == "in_service":
+                        # an unsupplied element that cannot be removed (a bus still referenced by a branch) may be switched off
+                        same = same and (bool(a) == bool(b_) or (bool(b_) and not bool(a)))
+                        continue
+                    na_a = a is None or a is pd.NA or (isinstance(a, float) and a != a)
+                    na_b = b_ is None or b_ is pd.NA or (isinstance(b_, float) and b_ != b_)
+                    if na_a or na_b:
+                        same = same and (na_a and na_b)
+                    elif not bool(a == b_):
+                        same = False
+            ctx.true(f"surviving_rows_are_the_users_rows/{t}", same)
+        # reference: supplied buses = reachable from the ext_grid bus over in-service branches whose switches are closed
+        bus_ok = {i: True for i in range(6)}
+        bus_ok[5] = D["bus5_in_service"]
+        edges = []
+        for k in (0, 1):
+            if D[f"trafo{k}_in_service"]:
+                edges.append((0, 1))
+        lines = {0: (1, 2), 1: (2, 3), 2: (3, 4), 3: (4, 1), 4: (4, 5)}
+        for k, (f, t) in lines.items():
+            ins = {2: D["line2_in_service"], 4: D["line4_in_service"]}.get(k, True)
+            closed = D["switch_at_line0_closed"] if k == 0 else True
+            if ins and closed and bus_ok[f] and bus_ok[t]:
+                edges.append((f, t))
+        reach = {0}
+        changed = True
+        while changed:
+            changed = False
+            for f, t in edges:
+                if (f in reach) != (t in reach):
+                    reach |= {f, t}
+                    changed = True
+        for i in range(6):
+            if i in reach and bus_ok[i]:
+                ctx.true(f"supplied_bus_survives/{i}", i in net.bus.index)
+        for li, (lb, flag) in enumerate(((2, True), (3, True), (5, D["load2_in_service"]))):
+            if flag and lb in reach and bus_ok[lb]:
+                ctx.true(f"supplied_load_survives/{li}", li in net.load.index)
+            if not flag:
+                ctx.true(f"out_of_service_load_is_dropped/{li}", li not in net.load.index)
+        for k in (0, 1):
+            if not D[f"trafo{k}_in_service"]:
+                ctx.true(f"out_of_service_trafo_is_dropped/{k}", k not in net.trafo.index)
+            else:
+                ctx.true(f"supplied_trafo_survives/{k}", k in net.trafo.index)
+    return fn
+
+
 def instances(tier):
     return [Inst("line_to_impedance", make_line_to_imp(), nvars=24, samples=3, meta=dict(function="replace_line_by_impedance")),
             Inst("impedance_to_line", make_imp_to_line(), nvars=24, samples=3, meta=dict(function="replace_impedance_by_line")),
             Inst("ward_to_load_and_shunt", make_ward(), nvars=24, samples=3, meta=dict(function="replace_ward_by_internal_elements")),
             Inst("xward_to_internal_elements", make_xward(), nvars=30, samples=3, meta=dict(function="replace_xward_by_internal_elements")),
             Inst("merge_parallel_line", make_merge_parallel(), nvars=24, samples=3, meta=dict(function="merge_parallel_line")),
+            Inst("drop_inactive_elements_flags", make_drop_inactive(5 if tier == "quick" else 7), nvars=10, samples=4, max_paths=2000, raises=(UserWarning,),
+                 meta=dict(function="drop_inactive_elements", flags=5 if tier == "quick" else 7)),
             Inst("ext_grid_to_gen", make_slack("ext_grid_to_gen"), nvars=12, samples=3, meta=dict(function="replace_ext_grid_by_gen")),
             Inst("gen_to_ext_grid", make_slack("gen_to_ext_grid"), nvars=12, samples=3, meta=dict(function="replace_gen_by_ext_grid"))]
 
